@@ -93,8 +93,9 @@ def run(chk):
     tie_groups = []
     for key, idx in list(groups.items()):
         free = [runs[i]["recs"] for i in idx if runs[i]["order"] == "free" and runs[i]["status"] == "ok"]
-        if any(f != free[0] for f in free[1:]):
-            # the sequential reference disagrees with itself: an exact tie inside the history, not a property matter
+        if key[0] == "visual" and any(f != free[0] for f in free[1:]):
+            # the sequential reference disagrees with itself: an exact tie in the appearance stage (whose margins the
+            # generator cannot assert; positional margins are asserted, so for `sort` this is never excused)
             tie_groups.append(key)
             del groups[key]
     for key, idx in groups.items():
